@@ -58,10 +58,10 @@ func allocsOf(p *load.Program, t *types.Named) []site {
 }
 
 type alphAnchors struct {
-	p                                                             *load.Program
-	msgChan, tokenBridge, govAddr, isMainnet                      *types.Var
-	fetchEvents, handleUnconfirmed, toUnconfirmed, handleEvents_  *ssa.Function
-	handleEvents, handleConfirmed, isEventConfirmed, getConfDur   *ssa.Function
+	p                                                              *load.Program
+	msgChan, tokenBridge, govAddr, isMainnet                       *types.Var
+	fetchEvents, handleUnconfirmed, toUnconfirmed, handleEvents_   *ssa.Function
+	handleEvents, handleConfirmed, isEventConfirmed, getConfDur    *ssa.Function
 	validateAttest, handleObsv, handleGov, getGovEvents, toWormMsg *ssa.Function
 }
 
@@ -512,8 +512,12 @@ func c08reobs(c *Ctx, a *alphAnchors) {
 		status := "(*N/alephium.Client).GetTransactionStatus(client,ctx,encoding/hex.EncodeToString(<-w.obsvReqC.TxHash[0:32]))"
 		_ = status
 		reqs := []req{
-			{Name: "transaction status fetched and confirmed", Pred: func(at string) bool { return strings.HasSuffix(at, ".Confirmed != nil") && strings.Contains(at, "GetTransactionStatus") }},
-			{Name: "events of the transaction fetched", Pred: func(at string) bool { return strings.HasPrefix(at, fname(a.getGovEvents)+"(") && strings.HasSuffix(at, "#1 == nil") }},
+			{Name: "transaction status fetched and confirmed", Pred: func(at string) bool {
+				return strings.HasSuffix(at, ".Confirmed != nil") && strings.Contains(at, "GetTransactionStatus")
+			}},
+			{Name: "events of the transaction fetched", Pred: func(at string) bool {
+				return strings.HasPrefix(at, fname(a.getGovEvents)+"(") && strings.HasSuffix(at, "#1 == nil")
+			}},
 			{Name: "the transaction's block is on the main chain (checked in this request)", Pred: func(at string) bool {
 				return strings.HasPrefix(at, "*(*N/alephium.Client).IsBlockInMainChain(client,ctx,") && strings.HasSuffix(at, ".Confirmed.BlockHash)#0")
 			}},
